@@ -68,6 +68,9 @@ package ast_java
 // the functions of the method table; then a fresh entry is started
 //@ method JavaFullListener.exitBody
 //@ modifies *
+// the tables that belong to the file (declared fields by name, imports, package) outlive the body of any of its types:
+// a method written after a nested type still resolves its receivers through them
+//@ ensures mapFields == old(mapFields) && imports == old(imports) && currentPkg == old(currentPkg) && fileName == old(fileName)
 //@ ensures old((*currentNode).NodeName != "" && currentType != "CreatorClass" && len(classNodeQueue) == 0) ==> len(classNodes) == old(len(classNodes)) + 1 && Extends(classNodes, old(classNodes), 1)
 //@ ensures old((*currentNode).NodeName != "" && currentType != "CreatorClass" && len(classNodeQueue) == 0) ==> classNodes[len(classNodes) - 1].NodeName == old((*currentNode).NodeName) && classNodes[len(classNodes) - 1].Package == old((*currentNode).Package) &&
 //@    classNodes[len(classNodes) - 1].Type == old((*currentNode).Type) && classNodes[len(classNodes) - 1].Extend == old((*currentNode).Extend) &&
